@@ -330,6 +330,12 @@ func ruleU1(p *Prog) *RuleResult {
 					continue
 				}
 				c := fmt.Sprintf("%s|%s", fname(f), p.exprShape(bo.Pos()))
+				if _, known := narrowScopeAllowed[c]; !known {
+					// a key kept in a field of a small struct is the same operand as the key in a local
+					if rc := fmt.Sprintf("%s|%s", fname(f), reducedShape(p.exprShape(bo.Pos()))); narrowScopeAllowed[rc] != "" {
+						c = rc
+					}
+				}
 				scopeSeen[c]++
 				if why, ok := narrowScopeAllowed[c]; ok && scopeSeen[c] <= allowedCount("scope:"+c) {
 					res.ok(fmt.Sprintf("scope:%s#%d", c, scopeSeen[c]), p.ipos(bo), "allowed: "+why)
